@@ -14,7 +14,4 @@ def x_only(prop, level="proof", explanation=None):
     return f
 
 
-CHECKS = {
-    "C01": x_only("C01"),
-    "C02": x_only("C02"),
-}
+CHECKS = {p: x_only(p) for p in ("C01", "C02", "C03", "C04", "C05", "C06", "C07", "C08", "C11", "C12", "C13", "C16")}
